@@ -88,3 +88,74 @@ Theorem C08_source_info_pipeline :
     G_RetrieveAssertionInfo cfg now enc (Ok (Some r)) = PVal (res_some (retrieve_info cfg now (Ok r))).
 Proof. exact source_info_pipeline. Qed.
 Print Assumptions C08_source_info_pipeline.
+
+(* ---- layout invariance of what is signed: goxmldsig's canonicalisers as a function (Canon.v, corresponded byte for byte with
+        the real library by the DSIG stream under C02), for every tree ---- *)
+From V Require Import Escape Build Dsig Canon P_Canon.
+From Coq Require Import Permutation.
+
+(* (a) the without-comments algorithms give the same bytes with every comment, at any depth, removed (or added) *)
+Theorem C08_canonical_form_ignores_comments : forall a n,
+  keeps_comments a = false -> canon_model a (strip_comments n) = canon_model a n.
+Proof. exact canon_ignores_comments. Qed.
+Print Assumptions C08_canonical_form_ignores_comments.
+
+Theorem C08_canonical_form_same_modulo_comments : forall a n1 n2,
+  keeps_comments a = false -> strip_comments n1 = strip_comments n2 -> canon_model a n1 = canon_model a n2.
+Proof. exact canon_same_modulo_comments. Qed.
+Print Assumptions C08_canonical_form_same_modulo_comments.
+
+(* (c) permuting the attributes of any number of elements does not change the canonical bytes, PROVIDED SortedAttrs.Less
+   can tell the attributes of each element apart ([all_sort_total]: pairwise distinct qualified names -- which well-formed XML
+   guarantees -- and no two prefixed attributes with the same local name, see C08_sort_premise_characterised).
+   PARTIAL as to the algorithms: the inclusive ones (c14n 1.0 REC, c14n 1.1, null); for the exclusive ones by correspondence. *)
+Theorem C08_canonical_form_ignores_attribute_order_partial : forall a n n',
+  inclusive a = true -> all_sort_total n = true -> attrs_permuted n n' -> canon_model a n' = canon_model a n.
+Proof. exact canon_ignores_attribute_order_inclusive. Qed.
+Print Assumptions C08_canonical_form_ignores_attribute_order_partial.
+
+Theorem C08_sorted_attributes_ignore_order : forall l l',
+  sort_total l = true -> Permutation l l' -> sort_attrs l' = sort_attrs l.
+Proof. exact sort_attrs_perm. Qed.
+Print Assumptions C08_sorted_attributes_ignore_order.
+
+Theorem C08_sort_premise_characterised : forall l,
+  sort_total l = true <->
+  NoDup l /\ forall x y, In x l -> In y l -> x <> y ->
+             at_key x <> at_key y \/ (at_space x <> at_space y /\ (prefixed x && prefixed y = false)).
+Proof. exact sort_total_iff. Qed.
+Print Assumptions C08_sort_premise_characterised.
+
+(* without that premise the statement is FALSE of goxmldsig (fidelity fact, checked against the real library by the fixed
+   cases of the canon set): two prefixed attributes with the same local name whose prefixes are declared on an ancestor keep
+   their document order under the inclusive algorithms (W3C C14N orders them by name-space URI) *)
+Theorem C08_canonical_form_ignores_attribute_order_namesakes_refuted :
+  exists n n', attrs_permuted n n' /\
+    canon_model (C11 false) n = Some "<r xmlns:a=""urn:x:a"" xmlns:b=""urn:x:b""><e b:k=""1"" a:k=""2""></e></r>" /\
+    canon_model (C11 false) n' = Some "<r xmlns:a=""urn:x:a"" xmlns:b=""urn:x:b""><e a:k=""2"" b:k=""1""></e></r>" /\
+    canon_model (CRec false) n <> canon_model (CRec false) n' /\
+    canon_model CNull n <> canon_model CNull n' /\
+    canon_model (CExc "" false) n = canon_model (CExc "" false) n'.
+Proof. exact canon_attribute_order_matters_for_namesakes. Qed.
+Print Assumptions C08_canonical_form_ignores_attribute_order_namesakes_refuted.
+
+(* (d) a reader recovers exactly the value from the canonical form: character data through end-of-line handling and
+   reference expansion, attribute values even through white-space normalisation (CR, and in attributes TAB and LF, are
+   written as character references); the escapers are injective; character data cut into several tokens (CDATA section,
+   removed comment) gives the bytes of the concatenation *)
+Theorem C08_canonical_text_recovers_value : forall s,
+  valid_xml_text s = true ->
+  canon_text_read (etree_escape CanonText s) = s /\ canon_attr_read (etree_escape CanonAttr s) = s.
+Proof. intros s V. exact (conj (canon_text_recovers_value s V) (canon_attr_recovers_value s V)). Qed.
+Print Assumptions C08_canonical_text_recovers_value.
+
+Theorem C08_canonical_escape_injective : forall m s1 s2,
+  valid_xml_text s1 = true -> valid_xml_text s2 = true -> etree_escape m s1 = etree_escape m s2 -> s1 = s2.
+Proof. exact canon_escape_injective. Qed.
+Print Assumptions C08_canonical_escape_injective.
+
+Theorem C08_canonical_text_tokens_concatenate : forall a b rest,
+  valid_utf8 a = true ->
+  c14n_write_kids (Text a :: Text b :: rest) = c14n_write_kids (Text (a ++ b) :: rest).
+Proof. exact canon_text_tokens_concatenate. Qed.
+Print Assumptions C08_canonical_text_tokens_concatenate.
